@@ -49,12 +49,7 @@ Wait for a channel potentially running on a `tokio` thread to process all items 
 If the current thread is a `tokio` thread then this call will be executed using [`tokio::task::block_in_place`] to avoid starving other work.
 */
 pub fn blocking_flush<T: Channel>(sender: &Sender<T>, timeout: Duration) -> bool {
-    match tokio::runtime::Handle::try_current() {
-        // If we're on a `tokio` thread then await
-        Ok(handle) => handle.block_on(flush(sender, timeout)),
-        // If we're not on a `tokio` thread then run a regular blocking variant
-        Err(_) => sync::blocking_flush(sender, timeout),
-    }
+    block_in_place_if_possible(|| sync::blocking_flush(sender, timeout))
 }
 
 /**
@@ -80,11 +75,27 @@ pub fn blocking_send<T: Channel>(
     msg: T::Item,
     timeout: Duration,
 ) -> Result<(), BatchError<T::Item>> {
+    block_in_place_if_possible(|| sync::blocking_send(sender, msg, timeout))
+}
+
+/**
+Run a blocking closure, telling `tokio` about it when the current thread belongs to a multi-threaded runtime.
+
+Calling `Handle::block_on` from a thread that's driving a runtime panics, and so does `block_in_place` on a current-thread runtime.
+In a multi-threaded runtime the closure runs through [`tokio::task::block_in_place`] so other tasks aren't starved.
+In any other context (no runtime, or a current-thread runtime) the closure runs directly on the calling thread.
+*/
+fn block_in_place_if_possible<R>(f: impl FnOnce() -> R) -> R {
     match tokio::runtime::Handle::try_current() {
-        // If we're on a `tokio` thread then await
-        Ok(handle) => handle.block_on(send(sender, msg, timeout)),
-        // If we're not on a `tokio` thread then run a regular blocking variant
-        Err(_) => sync::blocking_send(sender, msg, timeout),
+        Ok(handle)
+            if matches!(
+                handle.runtime_flavor(),
+                tokio::runtime::RuntimeFlavor::MultiThread
+            ) =>
+        {
+            tokio::task::block_in_place(f)
+        }
+        _ => f(),
     }
 }
 
